@@ -255,6 +255,17 @@ func (s scen) judge(e *sched.Exec) (string, string, *sched.Failure) {
 			}
 		}
 	}
+	// the tag: the first initialisation of an emulator runs on its own ("init"), every later one inside the invocation
+	// that found no environment ("invoke")
+	for bi, b := range inits {
+		want := "invoke"
+		if bi == 0 {
+			want = "init"
+		}
+		if b.phase != want {
+			failf("1", "init-phase-tag-wrong:"+b.phase, "initialisation %d is tagged %q, it ran %s", bi, b.phase, map[bool]string{true: "as the first initialisation (tag init)", false: "inside an invocation (tag invoke)"}[bi == 0])
+		}
+	}
 	// extension status lines: one per known extension, truthful state and subscriptions (default schedule only:
 	// the state is a moving target while the extension is still talking)
 	for bi, b := range inits {
